@@ -212,6 +212,35 @@ class InProc(Part):
         return Outcome(viol, labels, (adj or multi) and bool(case['opts'].get('buffer')))
 
 
+@st.composite
+def pm_cases(draw):
+    """--buffer together with -D / --post-mortem: nothing fails, so the debugger is never entered - and what passing and
+    skipped tests write still has to stay hidden"""
+    spec = draw(gen.worlds(max_layers=2, min_layers=1, hooks='all', kinds=('pass', 'pass', 'skip_body', 'skip_setup'),
+                           max_modules=2, depth=1, max_tests=4, weights_good=100, layer_decl=100, max_children=3))
+    tokens = gen.add_outputs(draw, spec, prob=85)
+    order = draw(st.sampled_from([['--buffer', '-D'], ['-D', '--buffer'], ['--buffer', '--post-mortem']]))
+    return {'spec': spec, 'tokens': tokens, 'order': order, 'verbose': draw(st.integers(0, 2)),
+            'in_defaults': draw(st.sampled_from([None, None, '--buffer', '-D']))}
+
+
+class PostMortem(Part):
+    name = 'postmortem'
+    examples = {'quick': 400, 'thorough': 6000}
+
+    def strategy(self, tier):
+        return pm_cases()
+
+    def execute(self, case):
+        import io
+        spec = common.with_prefix(case['spec'])
+        args = [a for a in case['order'] if a != case['in_defaults']] + ['-v'] * case['verbose']
+        dflt = [case['in_defaults']] if case['in_defaults'] else []
+        run = drive.run_inproc(spec, args, stdin=io.StringIO('c\n' * 50), defaults=dflt)
+        viol, labels = oracle(spec, {'buffer': True, 'repeat': 1}, case['tokens'], run)
+        return Outcome(viol, labels + ['order:' + ' '.join(case['order'])], bool(case['tokens']))
+
+
 def _cases_of(spec):
     def walk(node):
         if node['t'] == 'c':
@@ -237,12 +266,12 @@ class C13(Prop):
                   'installable; Python 3.12 result-event timing (errors reported as they happen).')
     rule = ('Hypothesis worlds: 1..3 layers all with per-test hooks (probe points), 1..2 modules, up to 5 tests per '
             'case of every outcome kind, 75% of the tests write 1..3 unique tokens; --buffer on (3/4) or off, -v 0..3, '
-            '--repeat, --shuffle, --xml (1/4), with --buffer 1/6 of the tests use a fixture that saves/restores or leaks the std streams. Non-trivial = --buffer AND (a failing and a non-failing test with output are '
+            '--repeat, --shuffle, --xml (1/4), with --buffer 1/6 of the tests use a fixture that saves/restores or leaks the std streams; postmortem part: --buffer with -D over passing/skipped tests. Non-trivial = --buffer AND (a failing and a non-failing test with output are '
             'neighbours, or a test with output reports >=2 results). Distinct by hash of (spec, options).')
     assumptions = ('a token is "attributed" when the nearest preceding report header names its test and no layer '
                    'summary lies in between', 'output written after a test\'s first reported result is still that '
                    'test\'s output')
-    parts = (InProc(),)
+    parts = (InProc(), PostMortem())
 
 
 PROP = C13()
